@@ -113,7 +113,7 @@ def run(tier="quick", seed=0):
     for cls in stages.ALL:
         budget = (12000 if thorough else 200) // (1 if cls.cost < 3 else (3 if cls.cost < 10 else (10 if thorough else 8)))
         sel = [hists[i] for i in rng.choice(len(hists), size=min(budget, len(hists)), replace=False)]
-        longs = [8191, 8192, 8193, 20000] if cls.name in CHEAP_LONG else []
+        longs = [8191, 8192, 8193, 20000, 70001] if cls.name in CHEAP_LONG else []   # 70001: above 2**16, not a multiple of any block size
         if cls.name == "EASRadio.__call__" and not thorough:
             longs = [8193]
         if cls.name == "EAS.__call__[threads-4]":
